@@ -21,3 +21,8 @@ check("C19", "other",
       "calls cannot collide given distinct uuid4 values, with the counter rendering unconstrained (covers every interleaving), and "
       "that the prefix is a prefix; translator validated against the real function; sat answers replayed with a forced schedule.",
       "source-to-SMT (string theory) translation of the real function, z3/cvc5 unsat queries", "3/C19")
+check("C01", "other",
+      "Bounded symbolic execution of the real iteration engine: execute(), all RowIterable classes and the factory path run on "
+      "symbolic row values, literals and slice bounds; every path of every program shape (depth 1-2 exhaustive over templates, "
+      "deeper curated; every leaf length up to N; sequence/mapping payloads; exact/loose declared bounds; chains, "
+      "materializations, iteration-to-iteration transfers) is compared by z3 with the oracle's ordered row list.", BSV, "3/C01")
